@@ -62,14 +62,23 @@ Proof.
   destruct (s_cok s); simpl in H; [right; exact H | left; reflexivity].
 Qed.
 
-Lemma reforward_true c s : reforward c s = true -> s_nibbled s = false /\ s_hdr_wait s = true.
+Lemma reforward_true c r s :
+  reforward c r s = true ->
+  s_nibbled s = false /\ s_hdr_wait s = true /\ (check_retriable r = false -> s_err s = None).
 Proof.
   unfold reforward. intros H.
   destruct (s_pinned s); [discriminate|].
   destruct (s_hdr_wait s); simpl in H; [|discriminate].
   destruct (exhausted c s); [discriminate|].
   destruct (s_nibbled s); [discriminate|].
-  split; reflexivity.
+  split; [reflexivity|]. split; [reflexivity|]. intros NR. rewrite NR in H.
+  destruct (s_err s); [discriminate | reflexivity].
+Qed.
+
+Lemma fail_sets_err s e : s_err (fail s e) = Some e.
+Proof.
+  unfold fail. destruct e; simpl; try reflexivity.
+  destruct (s_race s); simpl; try reflexivity. destruct (s_receipt s); reflexivity.
 Qed.
 
 Definition quiet_end (s s' : st) : Prop :=
@@ -136,7 +145,10 @@ Record summary (c : cfg) (r : req) (e : event) (s s' : st) (o : list out) : Prop
   sm_nibbled : s_nibbled s = true -> s_nibbled s' = true;
   sm_nibble_set : s_nibbled s = false -> s_nibbled s' = true -> active (s_phase s') = true /\ o = [];
   sm_hdr : s_hdr_wait s' = true ->
-           s_hdr_wait s = true \/ (exists status, e = EvHeaders status /\ reforwardable c status = true)
+           s_hdr_wait s = true \/ (exists status, e = EvHeaders status /\ reforwardable c status = true);
+  (* reforward() says yes only in complete(), and for a non-retriable request only when the reply was received
+     completely (no premature EOF) *)
+  sm_refw_ev : reforwards o = 0 \/ (exists p, e = EvComplete p /\ (check_retriable r = false -> p = false))
 }.
 
 Lemma phase_cases s s' :
@@ -377,8 +389,8 @@ Proof.
       assert (S1 : same3 s s1 /\ s_phase s1 = s_phase s).
       { unfold s1. destruct premature; [destruct (fail_view s ErrRead) as [A B]; auto | split; [apply same3_refl | reflexivity]]. }
       destruct S1 as [[X1 [X2 X3]] XP].
-      destruct (reforward c s1) eqn:RF; inversion H; subst; clear H.
-      * destruct (reforward_true _ _ RF) as [N W].
+      destruct (reforward c r s1) eqn:RF; inversion H; subst; clear H.
+      * destruct (reforward_true _ _ _ RF) as [N [W EN]].
         match goal with |- summary _ _ _ _ (use_destinations c r ?x) _ =>
           destruct (use_destinations_view c r x) as [[A1 [A2 A3]] B];
           set (sf := use_destinations c r x) in * end.
@@ -394,6 +406,8 @@ Proof.
         -- intros NB. congruence.
         -- intros NB1 NB2. congruence.
         -- intros HW. left. congruence.
+        -- right. exists premature. split; [reflexivity|]. intros NR. specialize (EN NR).
+           destruct premature; [|reflexivity]. unfold s1 in EN. rewrite fail_sets_err in EN. discriminate.
       * apply summary_quiet; [repeat split; simpl; assumption | right; reflexivity].
     + inversion H; subst. apply summary_quiet; [repeat split | right; reflexivity].
     + inversion H; subst. apply summary_quiet; [repeat split | left; simpl; congruence].
@@ -596,22 +610,28 @@ Definition req_post_body : req := mkReq rm_METHOD_POST true.
 Definition req_get : req := mkReq rm_METHOD_GET false.
 
 (* two paths; the first attempt's reply (502, re-forwardable) is cut in the body by a connection close: the body-less
-   POST is written again on the second path. No reply was ever received completely. *)
-Definition witness_evs : list event :=
+   POST is NOT written again (reforward(): err && !checkRetriable()); the same events make a GET go to the second path *)
+Definition truncated_5xx_evs : list event :=
   [EvNewDest; EvNewDest; EvDestsEnd; EvConn false true false; EvHeaders 502; EvComplete true;
    EvConn false true false; EvFail FZero].
 
-Lemma resend_after_truncated_reply_witness :
-  exists c r evs,
-    r_method r = rm_METHOD_POST /\ check_retriable r = false /\
-    Forall (fun e => e <> EvComplete false) evs /\
-    sends (snd (run c r init evs)) = 2.
+Lemma truncated_reply_examples :
+  check_retriable req_post_nobody = false /\
+  Forall (fun e => e <> EvComplete false) truncated_5xx_evs /\
+  snd (run cfg_default req_post_nobody init truncated_5xx_evs) = [OSend 0 false] /\
+  snd (run cfg_default req_get init truncated_5xx_evs) = [OSend 0 false; OReforward; OSend 1 false].
 Proof.
-  exists cfg_default, req_post_nobody, witness_evs.
-  split; [reflexivity|]. split; [vm_compute; reflexivity|]. split.
-  - unfold witness_evs. repeat constructor; discriminate.
-  - vm_compute. reflexivity.
+  split; [vm_compute; reflexivity|]. split.
+  - unfold truncated_5xx_evs. repeat constructor; discriminate.
+  - split; vm_compute; reflexivity.
 Qed.
+
+(* what stays outside "connection failure": a COMPLETE 502 reply makes squid re-forward even a body-less POST *)
+Lemma complete_5xx_is_reforwarded :
+  snd (run cfg_default req_post_nobody init
+         [EvNewDest; EvNewDest; EvDestsEnd; EvConn false true false; EvHeaders 502; EvComplete false;
+          EvConn false true false; EvHeaders 200; EvComplete false]) = [OSend 0 false; OReforward; OSend 1 false].
+Proof. vm_compute; reflexivity. Qed.
 
 (* a failed connect sends nothing: the request may still go out once, on the next path *)
 Lemma post_after_refused_connect :
@@ -643,14 +663,6 @@ Lemma post_not_retried_after_pconn_race :
           EvHeaders 200; EvComplete false]) = [OSend 0 true].
 Proof. vm_compute; reflexivity. Qed.
 
-(* hypotheses of the theorems are satisfiable *)
-Lemma witness_has_reforwardable_header : ~ Forall (no_reforwardable_header cfg_default) witness_evs.
-Proof.
-  intros F. unfold witness_evs in F.
-  repeat match goal with H : Forall _ (_ :: _) |- _ => inversion H; subst; clear H end.
-  match goal with H : no_reforwardable_header _ (EvHeaders 502) |- _ => vm_compute in H; discriminate end.
-Qed.
-
 Lemma pconn_race_examples :
   snd (run cfg_default req_get init
          [EvNewDest; EvDestsEnd; EvConn true true false; EvFail FZero; EvConn false true false;
@@ -659,3 +671,53 @@ Lemma pconn_race_examples :
          [EvNewDest; EvDestsEnd; EvConn true true false; EvFail FZero; EvConn false true false;
           EvHeaders 200; EvComplete false]) = [OSend 0 true].
 Proof. exact (conj get_retried_after_pconn_race post_not_retried_after_pconn_race). Qed.
+
+(* ---------- the sharpened bound: reforward() decisions need completely received replies ---------- *)
+Definition is_complete_reply (e : event) : bool := match e with EvComplete false => true | _ => false end.
+Definition complete_replies (evs : list event) : N := lenN (filter is_complete_reply evs).
+
+Lemma reforwards_bounded c r evs : forall s,
+  check_retriable r = false -> reforwards (snd (run c r s evs)) <= complete_replies evs.
+Proof.
+  induction evs as [|e t IH]; intros s NR; simpl.
+  - unfold reforwards, complete_replies; simpl. lia.
+  - destruct (step c r s e) as [s1 o1] eqn:ST.
+    destruct (step_summary _ _ _ _ _ _ ST) as [_ _ S3 _ _ _ _ _ S9].
+    specialize (IH s1 NR). destruct (run c r s1 t) as [s2 o2]. simpl in *.
+    rewrite reforwards_app.
+    assert (A : reforwards o1 <= (if is_complete_reply e then 1 else 0)).
+    { destruct S9 as [Z|[p [E P]]]; [destruct (is_complete_reply e); lia|].
+      rewrite (P NR) in E. subst e. simpl.
+      destruct S3 as [Z|[Z _]]; lia. }
+    unfold complete_replies in *. simpl. destruct (is_complete_reply e); simpl; lia.
+Qed.
+
+(* a request that checkRetriable() rejects is written on a connection at most once, plus once per COMPLETELY
+   received reply (complete() on a whole reply is the only place where squid decides to send it again) *)
+Theorem sends_bounded_by_complete_replies c r evs :
+  check_retriable r = false -> sends (snd (run c r init evs)) <= 1 + complete_replies evs.
+Proof.
+  intros NR. pose proof (no_resend_nonretriable c r evs NR). pose proof (reforwards_bounded c r evs init NR). lia.
+Qed.
+
+(* a completely received reply re-forwards only when its status is re-forwardable: together *)
+Definition failure_sequence (c : cfg) (evs : list event) : Prop :=
+  Forall (fun e => e <> EvComplete false) evs \/ Forall (no_reforwardable_header c) evs.
+
+Lemma no_complete_replies evs : Forall (fun e => e <> EvComplete false) evs -> complete_replies evs = 0.
+Proof.
+  induction 1 as [|e t He Ht IH]; [reflexivity|].
+  unfold complete_replies in *. simpl.
+  destruct e; simpl; try exact IH. destruct premature; [exact IH | congruence].
+Qed.
+
+(* THE PROPERTY: along every event sequence in which no complete re-forwardable reply arrived -- every reply either
+   lost its connection before its end or had a status squid does not re-forward -- a request that checkRetriable()
+   rejects is written on a connection at most once *)
+Theorem sent_at_most_once_under_failures c r evs :
+  check_retriable r = false -> failure_sequence c evs -> sends (snd (run c r init evs)) <= 1.
+Proof.
+  intros NR [F|F].
+  - pose proof (sends_bounded_by_complete_replies c r evs NR). rewrite (no_complete_replies _ F) in H. lia.
+  - apply at_most_one_send; assumption.
+Qed.
